@@ -60,19 +60,31 @@ class InjectedFault(RuntimeError):
     """raised by a peer on behalf of the fault injector (sibling failure)"""
 
 
-def make_cer(rid, rc=None, fc=None, hints=None, packages=None):
+def make_cer(rid, rc=None, fc=None, hints=None, packages=None, time_conditions=False):
     """
     builds the (dumped) ContentEvaluationResult that is the evaluatable data of one request.
     rc: {key: "FULFILLED"|"UNFULFILLED"|"UNKNOWN"}; fc: {key: bool}; hints: iterable of keys; packages: {key: expr}
     hint texts and format error messages carry the request id.
     """
+    format_constraints = {
+        k: {"format_constraint_fulfilled": bool(v), "error_message": None if v else f"E{k}@{rid}"}
+        for k, v in (fc or {}).items()
+    }
+    requirement_constraints = dict(rc or {})
+    if time_conditions:
+        # what UB1..UB3 are replaced by: the shipped format constraints 932 / 934 (entries for the evaluators that
+        # read verdicts from the content evaluation result) and the division constraints 492 / 493
+        number = sum(map(ord, rid))
+        format_constraints.setdefault("932", {"format_constraint_fulfilled": number % 2 == 0,
+                                              "error_message": None if number % 2 == 0 else f"E932@{rid}"})
+        format_constraints.setdefault("934", {"format_constraint_fulfilled": number % 3 == 0,
+                                              "error_message": None if number % 3 == 0 else f"E934@{rid}"})
+        requirement_constraints.setdefault("492", "FULFILLED" if number % 2 else "UNFULFILLED")
+        requirement_constraints.setdefault("493", "UNFULFILLED" if number % 2 else "FULFILLED")
     return {
         "hints": {k: f"H{k}@{rid}" for k in (hints or [])},
-        "format_constraints": {
-            k: {"format_constraint_fulfilled": bool(v), "error_message": None if v else f"E{k}@{rid}"}
-            for k, v in (fc or {}).items()
-        },
-        "requirement_constraints": dict(rc or {}),
+        "format_constraints": format_constraints,
+        "requirement_constraints": requirement_constraints,
         "packages": dict(packages or {}),
     }
 
